@@ -124,6 +124,16 @@ CLAIMS = {
         note="Trusted: TLC, the rewrite operators in props/c15.py. Random corpus over the 13 interaction schemas; the shipped "
              "logger / basic-mapping components are exercised by C20 and not yet by this check.",
         technique="TLA+ line grammar + loader spec, self-composition (original vs rewritten) checked by TLC; both replayed on the code"),
+    "C07": dict(
+        text="TLC runs the composed specification ZLinesFn . ZLoadFn on valid texts mutated at character / token / line level, "
+             "on mutated override lists and on every include graph over three files (cyclic ones included), checking that "
+             "every behaviour terminates in a configuration or one of the configuration-error kinds (OnlyConfigErrors; an "
+             "include cycle is refused); the real entry points must likewise end in a configuration or a ConfigurationError, "
+             "and validator.main on groups of these files must return 0/1 with one message per invalid file and never raise.",
+        design="3 (C07)",
+        note="Trusted: TLC, mutation operators in props/c07.py. Only internal exceptions and the validator's behaviour are "
+             "judged; accept/reject disagreements with the specification are counted in the evidence and left to C01/C03.",
+        technique="TLA+ line grammar + loader spec (no internal outcome, terminates) checked by TLC on mutated inputs; executions on the code must stay in the spec's outcome space"),
 }
 
 NOT_YET = "check not built yet (construction order in DESIGN.md section 8)"
